@@ -60,6 +60,8 @@ VOLUMES = {
                   "vox": (1, 1, 4)},
     "f32-slope": {"shape": (130, 2, 2), "dtype": "float32",
                   "vox": (1, 1, 1), "slope": (2.0, 0.0)},
+    "u8-slope": {"shape": (130, 3, 2), "dtype": "uint8",
+                 "vox": (1, 1, 1), "slope": (2.0, 1.0)},
     "u16-labels": {"shape": (130, 3, 2), "dtype": "uint16",
                    "vox": (1, 1, 1), "segmentation": True},
     "u8-aniso-z": {"shape": (130, 20, 40), "dtype": "uint8",
@@ -74,7 +76,8 @@ VOLUMES = {
 METHODS = ("explicit", "auto", "average-outside", "average-outside-zero")
 OPTSETS = {"default": [], "flat-nogzip": ["--flat", "--no-gzip"],
            "nogzip": ["--no-gzip"], "sharded": [], "valuemap": [],
-           "valuemap-max": [], "valuemap-desc": [], "valuemap-negmax": []}
+           "valuemap-max": [], "valuemap-desc": [], "valuemap-negmax": [],
+           "valuemap-ignore": []}
 # value-mapping options given to every command that reads the volume
 VALUEMAP = ["--ignore-scaling", "--input-min", "10", "--input-max", "300"]
 VALUEMAP_MAX = ["--input-max", "300"]      # input-min left at its default
@@ -120,7 +123,8 @@ def commands(vol, optset, ws, mmap, method="explicit"):
           # the default lower bound
           ["--input-min", "300", "--input-max", "0"]
           if optset == "valuemap-desc" else
-          ["--input-max", "-50"] if optset == "valuemap-negmax" else [])
+          ["--input-max", "-50"] if optset == "valuemap-negmax" else
+          ["--ignore-scaling"] if optset == "valuemap-ignore" else [])
     tcs = (["--target-chunk-size", str(v["tcs"])] if v.get("tcs") else [])
     cmds = {
         "gen-info": ("volume_to_precomputed",
